@@ -34,6 +34,10 @@ def run(chk):
     decode(chk, prog)
     clamps(chk, prog)
     zxaychip(chk, prog)
+    # the resampler's phase stays in [0,1): a necessary condition of 'every sample is finite and bounded'
+    from . import floatinv
+    chk.rule("T-INV/float", "interval analysis of AymPrecise::process: phase accumulator in [0,1) at every interpolation use and at return, for every step up to clock/(8000*64)")
+    floatinv.phase_accumulator(chk, prog)
     return chk.finish(EXPL)
 
 
